@@ -468,7 +468,9 @@ def struct_type_ok(t, v):
 
 
 def struct_fields_ok(t, v):
-    return all(field_present(v, f[0]) for f in t.definition._all_fields_)
+    """every field is present; stated over the set of field names (which the
+    table well-formedness equates with the names in the field list)"""
+    return all(field_present(v, n) for n in t.definition._all_field_names_)
 
 
 def valid_struct(t, v):
